@@ -81,6 +81,10 @@ bool RSEquationProcessor::PrecheckFor(const EntityUID key, const EntityUID value
     return false;
   } else if (!schema.GetParse(key).exprType.has_value() || !schema.GetParse(value).exprType.has_value()) {
     return false;
+  } else if (IsBaseSet(keyType) && !IsBaseSet(valueType)) {
+    // a base set can only be replaced by a set: its name is substituted into typifications
+    const auto* valueTypification = std::get_if<rslang::Typification>(schema.GetParse(value).TypePtr());
+    return valueTypification != nullptr && valueTypification->IsCollection();
   } else {
     return true;
   }
